@@ -229,6 +229,14 @@ impl W {
         if self.kind == Kind::C02 && s0.first().copied().unwrap_or(0) >= 154 {
             return crate::lgen::LGen::new(&s0[1..], true).program();
         }
+        if self.kind == Kind::C01 && s0.first().copied().unwrap_or(0) >= 205 {
+            // one program in five: the control flow of C01 (match above all) over declared types --
+            // records, enums with up to four variants, options -- instead of scalars only
+            let mut p = self.prof.clone();
+            p.aggregates = true;
+            p.budget = 260;
+            return Gen::new(&s0[1..], s1, p).program(&main_ret_choices(self.kind));
+        }
         Gen::new(s0, s1, self.prof.clone()).program(&main_ret_choices(self.kind))
     }
 
